@@ -66,7 +66,7 @@ pub fn profile(name: &str) -> Profile {
             name: "C02",
             val: ValProfile::Tiny,
             key_profile: [1, 3, 6],
-            w: [70, 6, 1, 4, 5, 4, 8],
+            w: [55, 22, 1, 4, 5, 4, 8],
             batch: (1, 200),
             ..base
         },
@@ -93,7 +93,7 @@ pub fn profile(name: &str) -> Profile {
             ops: (10, 45),
             pool: (30, 400),
             batch: (1, 80),
-            w: [45, 10, 0, 30, 14, 2, 2],
+            w: [38, 18, 0, 28, 12, 2, 2],
             val: ValProfile::Small,
             ladder_at_end: true,
             big_initial: 0,
@@ -362,18 +362,57 @@ impl<'a, K: HashKind> Case<'a, K> {
     fn initial_fill(&mut self, n: usize) {
         let mut b: Batch = Vec::with_capacity(n);
         let mut keys = std::collections::BTreeSet::new();
-        while keys.len() < n {
-            keys.insert(self.rng.key());
+        let variant = self.rng.below(3);
+        if variant == 0 {
+            while keys.len() < n {
+                keys.insert(self.rng.key());
+            }
+        } else {
+            // one or two big clusters sharing a long prefix (stops branch-node prefix compression
+            // once far-away keys arrive), plus far keys on both sides
+            let n_clusters = 1 + self.rng.usize_below(2);
+            for _ in 0..n_clusters {
+                let base = self.rng.key();
+                let plen = *self.rng.pick(&[64usize, 96, 120, 128, 136, 160, 200]);
+                let c = nvcore::keygen::cluster(&mut self.rng, &base, plen, n / n_clusters);
+                keys.extend(c);
+            }
+            for _ in 0..self.rng.range(0, 40) {
+                keys.insert(self.rng.key());
+            }
+            if variant == 2 {
+                let mut k = [0xffu8; 32];
+                for i in 0..self.rng.range(1, 30) {
+                    k[31] = i as u8;
+                    k[1] = self.rng.below(256) as u8;
+                    keys.insert(k);
+                }
+            }
         }
         let st = self.next_stamp();
+        let small_only = variant != 0 && self.rng.bool();
         for (i, k) in keys.into_iter().enumerate() {
-            let len = crate::gen::value_len(&mut self.rng, ValProfile::Small);
+            let len = if small_only {
+                self.rng.range(0, 24) as usize
+            } else {
+                crate::gen::value_len(&mut self.rng, ValProfile::Small)
+            };
             b.push((k, Access::Write(Some(crate::gen::stamped_value(st + i as u64, len)))));
         }
-        self.rep.t(format!("initial-fill n={n}"));
+        self.rep.t(format!("initial-fill n={} variant={variant}", b.len()));
+        self.rep.feat(&format!("initial_fill_variant_{variant}"), 1);
         self.commit_batch(b, 0, "initial-fill");
-        // add some of these keys to the pool so later ops touch them
-        let extra: Vec<Key> = self.sut.model.kv.keys().step_by(97).copied().collect();
+        // add some of these keys to the pool so later ops touch them (start, middle, end)
+        let total = self.sut.model.kv.len();
+        let mut extra: Vec<Key> = self.sut.model.kv.keys().step_by(61).copied().collect();
+        extra.extend(self.sut.model.kv.keys().take(8).copied());
+        extra.extend(self.sut.model.kv.keys().skip(total.saturating_sub(8)).copied());
+        // far keys right after / before the clusters
+        for _ in 0..16 {
+            let mut k = self.rng.key();
+            k[0] = *self.rng.pick(&[0x00u8, 0xff, 0xfe, 0x01, 0x80, 0x7f]);
+            extra.push(k);
+        }
         self.pool.keys.extend(extra);
     }
 
